@@ -84,6 +84,13 @@ CHECKS = {
             "fallback text that does not reproduce the input op for op is a violation.",
             "'Always answers' is restated as a step bound measured on the unchanged tree (x200); worker crashes inside an announced call count as 'did not answer'.",
             "DESIGN.md 3/C06"),
+    "C13": ("exploration",
+            "runtime monitoring: tree query (T2A) over the text the real decompiler emits for compiled flat programs",
+            "Random flat structured programs and a small grammar enumerated completely (every listed block shape alone and every "
+            "ordered pair) are compiled and decompiled by the real tools; the emitted text must not be a fallback, its parse "
+            "tree must contain no jump statement and every plain statement of the source exactly once.",
+            "'any headers' read as: every switch header kind with the case header kinds it takes (DESIGN.md 7).",
+            "DESIGN.md 3/C13"),
 }
 
 NOT_YET = {
